@@ -426,3 +426,85 @@ func C02_args() {
 		}
 	}
 }
+
+// ---- registered bindings: a Go method whose parameters come in another
+// order than the GraphQL field declares its arguments (RegisterField names
+// the argument for each parameter)
+
+const c02RegSchema = `type Query { greet(p: String, q: String): String mix(f: Boolean, t: String): String }`
+
+type c02RegRes struct{}
+
+func (r *c02RegRes) Resolve(field *ggql.Field, args map[string]interface{}) (interface{}, error) {
+	switch field.Name {
+	case "query":
+		return r, nil
+	case "greet":
+		p, _ := args["p"].(string)
+		q, _ := args["q"].(string)
+		return p + "," + q, nil
+	case "mix":
+		f, _ := args["f"].(bool)
+		t, _ := args["t"].(string)
+		if f {
+			return t + "!", nil
+		}
+		return t, nil
+	}
+	return nil, nil
+}
+
+type C02RegQuery struct{}
+
+func (q *C02RegQuery) Salute(qq, p string) string { return p + "," + qq }
+func (q *C02RegQuery) Blend(t string, f bool) string {
+	if f {
+		return t + "!"
+	}
+	return t
+}
+
+type c02RegRoot struct{ Query *C02RegQuery }
+
+// C02_registered
+func C02_registered() {
+	p, q := sym.String("p", 1), sym.String("q", 1)
+	sym.Assume(sym.And(isNameByte(p[0]), isNameByte(q[0])))
+	f := sym.Bool("f")
+	fl := "false"
+	if f {
+		fl = "true"
+	}
+	var doc string
+	var vars map[string]interface{}
+	switch sym.Choice("doc", 4) {
+	case 0:
+		doc = `{greet(p:"` + p + `" q:"` + q + `") mix(f:` + fl + ` t:"` + p + `")}`
+	case 1:
+		doc = `{a:greet(q:"` + q + `" p:"` + p + `") b:mix(t:"` + q + `" f:` + fl + `)}`
+	case 2:
+		doc = `query($p:String $f:Boolean){greet(p:$p q:"` + q + `") mix(t:$p f:$f)}`
+		vars = map[string]interface{}{"p": p, "f": f}
+	default:
+		doc = `{greet(q:"` + q + `") mix(t:"` + p + `")}` // the other argument omitted
+	}
+	sym.Observe("doc", doc)
+	base := ggql.NewRoot(&c02RegRes{})
+	if err := base.ParseString(c02RegSchema); err != nil {
+		panic("harness schema rejected: " + err.Error())
+	}
+	want := base.ResolveString(doc, "", vars)
+	sym.Assert(want["errors"] == nil, "interface strategy resolves the request")
+	refl := ggql.NewRoot(&c02RegRoot{Query: &C02RegQuery{}})
+	if err := refl.ParseString(c02RegSchema); err != nil {
+		panic("harness schema rejected: " + err.Error())
+	}
+	if refl.RegisterType(&C02RegQuery{}, "Query") != nil ||
+		refl.RegisterField("Query", "greet", "Salute", "q", "p") != nil ||
+		refl.RegisterField("Query", "mix", "Blend", "t", "f") != nil {
+		panic("harness: registration refused")
+	}
+	got := refl.ResolveString(doc, "", vars)
+	sym.Observe("got", got)
+	sym.Assert(sym.DeepEqual(interface{}(got), interface{}(want)), "same response under every strategy")
+}
